@@ -115,6 +115,10 @@ func c18Verbatims(r *rand.Rand, k int) zr.Stmt {
 }
 
 // c18Program: main -> 层1 -> … -> 层d, the innermost raises. Some levels live in module 模甲.
+// c18HandlerFault: when > 0, the body at that level has a 拦截异常 block which, after taking over the
+// exception raised deeper down, faults itself (nobody handles that second fault).
+var c18HandlerFault int
+
 func c18Program(r *rand.Rand, d int, fault string, useModule bool, handledFirst bool, asMethod bool) (*zr.Program, map[string]*zr.Program) {
 	mods := map[string]*zr.Program{}
 	mainBody := []zr.Stmt{}
@@ -163,6 +167,15 @@ func c18Program(r *rand.Rand, d int, fault string, useModule bool, handledFirst 
 		}
 		fb = append(fb, zr.Return{E: intLit(level)})
 		fd := &zr.FuncDef{Name: fmt.Sprintf("层%d", level), Params: []string{p}, Body: fb}
+		if c18HandlerFault == level {
+			second := []string{"div0", "index", "undefined", "type", "throw"}[r.Intn(5)]
+			hb := []zr.Stmt{zr.Show(zr.S("处理"))}
+			if r.Intn(2) == 0 {
+				hb = append(hb, zr.ExprStmt{E: zr.CallE("层0", intLit(2))})
+			}
+			hb = append(hb, c18FaultStmt(second, 90+level), zr.Show(zr.S("不到")))
+			fd.Catches = []zr.Catch{{Class: "异常", Body: hb}}
+		}
 		switch {
 		case inModule(level):
 			modBody = append(modBody, fd)
@@ -213,7 +226,7 @@ func c18Program(r *rand.Rand, d int, fault string, useModule bool, handledFirst 
 
 func checkC18(c *Ctx) {
 	c.rule = "runtime faults: call chains main -> 层1 -> … -> 层d (d = 0..4; levels >= 2 optionally in an imported module, level 1 optionally a type method) whose innermost body raises one of 11 fault kinds at a generator-known statement (plain, inside 如果, inside 遍历), with calls that returned earlier, an earlier handled exception, and multi-line literals / comments / bracket continuations / wide characters before the fault; rendered with LF, CR, CRLF or LFCR line ends, TAB or 4-space indents, blank lines and comments. The DisplayError text is parsed into (module, line, quoted text) entries and compared with the reference evaluator's call stack at the fault mapped to physical lines by the renderer: same entries in either printing order, no entry for a returned call, quoted text = that physical line. Syntax faults: an unknown character / stray closing bracket planted at a known offset of a valid program: line, quoted line and caret column (display width of the text before the character; ASCII 1, CJK/full-width 2). distinct_nontrivial = distinct (fault kind, depth, module/method/handled flags, line-end style, fault line)"
-	c.assumptions = []string{"fault statements occupy one physical line", "faults inside handler blocks, unterminated literals and EOF positions are not judged", "frames that have not started a statement yet (line unknown) are compared by module only"}
+	c.assumptions = []string{"fault statements occupy one physical line", "for a fault inside a handler block only containment is judged (every entry is an active frame, outermost call site and faulting statement present); unterminated literals and EOF positions are not judged", "frames that have not started a statement yet (line unknown) are compared by module only"}
 	rng := c.Rand("c18")
 	type rcase struct {
 		req    Req
@@ -221,6 +234,7 @@ func checkC18(c *Ctx) {
 		lineOf map[string]map[int]int
 		srcs   map[string]string
 		shape  string
+		inHandler bool
 	}
 	var cases []rcase
 	n := c.Pick(3000, 250000)
@@ -232,11 +246,17 @@ func checkC18(c *Ctx) {
 		handled := rng.Intn(3) == 0
 		var prog *zr.Program
 		var mods map[string]*zr.Program
+		hf := 0
 		if useModule {
 			// all levels >= 2 live in the module, level 1 in main
 			prog, mods = c18ModuleProgram(rng, d, fault, handled)
 		} else {
+			if d >= 2 && rng.Intn(3) == 0 && fault != "throw-custom" {
+				hf = 1 + rng.Intn(d-1) // a level above the raising one
+			}
+			c18HandlerFault = hf
 			prog, mods = c18Program(rng, d, fault, false, handled, asMethod)
+			c18HandlerFault = 0
 		}
 		next := 0
 		prog = zr.TagProgram(prog, &next)
@@ -268,7 +288,7 @@ func checkC18(c *Ctx) {
 		ip.Files = tmods
 		ref := ip.Run(prog)
 		req := Req{Op: "exec", Main: "main.zn", Files: files, EvalBudget: 50*ref.Steps + 5000, ParseBudget: 400000}
-		cases = append(cases, rcase{req, ref, lineOf, srcs, fmt.Sprintf("%s/d%d/mod%v/meth%v/handled%v/eol%q", fault, d, useModule, asMethod, handled, layout.EOL)})
+		cases = append(cases, rcase{req, ref, lineOf, srcs, fmt.Sprintf("%s/d%d/mod%v/meth%v/handled%v/hfault%d/eol%q", fault, d, useModule, asMethod, handled, hf, layout.EOL), hf > 0})
 	}
 	reqs := make([]Req, len(cases))
 	for i := range cases {
@@ -336,6 +356,51 @@ func checkC18(c *Ctx) {
 		rev := make([]c18Frame, len(got))
 		for k := range got {
 			rev[len(got)-1-k] = got[k]
+		}
+		if cs.inHandler {
+			// a fault inside a handler block: which entry the interrupted body itself contributes
+			// is not fixed by the statement, so only this is required: every printed entry is one
+			// of the frames active at the fault (none of a call that has returned), in a consistent
+			// order, and both the outermost call site and the faulting statement are among them
+			sub := func(g []c18Frame) string {
+				k := 0
+				for _, f := range g {
+					found := false
+					for k < len(exp) {
+						e := exp[k]
+						k++
+						if e.module == f.module && (e.line == 0 || e.line == f.line) {
+							found = true
+							break
+						}
+					}
+					if !found {
+						return fmt.Sprintf("entry %s:%d (%q) is not a frame active at the fault (or is out of order)", f.module, f.line, strings.TrimSpace(f.text))
+					}
+				}
+				has := func(e c18Frame) bool {
+					for _, f := range g {
+						if f.module == e.module && (e.line == 0 || f.line == e.line) {
+							return true
+						}
+					}
+					return false
+				}
+				if len(exp) > 0 && (!has(exp[0]) || !has(exp[len(exp)-1])) {
+					return "the outermost call site or the faulting statement is missing from the chain"
+				}
+				return ""
+			}
+			c.Count("faults_inside_handlers_judged", 1)
+			dd := sub(got)
+			if dd != "" && sub(rev) != "" {
+				expDesc := []string{}
+				for _, e := range exp {
+					expDesc = append(expDesc, fmt.Sprintf("%s:%d", e.module, e.line))
+				}
+				c.Violation(key, fmt.Sprintf("%s: %s\nframes active at the fault (outermost first): %s\nerror text:\n%s\nmain file:\n%s", cs.shape, dd, strings.Join(expDesc, " -> "), resp.Err.Text, clip(cs.srcs["主模块"], 1500)), rp)
+			}
+			return
 		}
 		d1 := match(got)
 		if d1 != "" && match(rev) != "" {
